@@ -40,14 +40,19 @@ where
       .into_iter()
       .for_each(move |x| x.next(item.clone()));
   }
+  // the observers are taken out in one critical section: an observer that registers
+  // concurrently is either among them (and is notified) or stays registered
+  fn take_observers(&self) -> Vec<Observer<'a, Item>> {
+    let mut observers = self.observers.write().unwrap();
+    observers.drain().map(|x| x.1).collect()
+  }
+
   pub fn error(&self, err: RxError) {
-    let obs = self.fetch_observers();
-    self.observers.write().unwrap().clear();
+    let obs = self.take_observers();
     obs.into_iter().for_each(move |x| x.error(err.clone()));
   }
   pub fn complete(&self) {
-    let obs = self.fetch_observers();
-    self.observers.write().unwrap().clear();
+    let obs = self.take_observers();
     obs.into_iter().for_each(|x| x.complete());
   }
 
